@@ -2,6 +2,7 @@ package checks
 
 import (
 	"fmt"
+	"strings"
 
 	"verif/core"
 	"verif/model"
@@ -219,6 +220,43 @@ func init() {
 					c.Nontrivial(src + ns.name)
 					if !got.Panicked && (got.Err != nil || got.Out != want) {
 						c.Violation("each-nil-go-slice", fmt.Sprintf("with %s the render gave %s, want %q", ns.name, got.Describe(), want), map[string]any{"source": src, "data": ns.name})
+					}
+				}})
+			// (1d) the source array was handed to built-ins first (or is handed to them in the body): the loop still walks its elements in order
+			usedBy := []string{"shuffle()", "reverse()", "append(9)", "prepend(0)", "slice(1)", "slice(0, 2)", "contains(3)", "join(\"-\")", "len()", "rand()"}
+			secs = append(secs, core.Section{Name: "source-used-by-built-ins", Exhaustive: true, N: len(usedBy) * 4 * 3,
+				Run: func(c *core.Ctx, i int) {
+					n := []int{2, 5, 9}[i%3]
+					i /= 3
+					fn := usedBy[i/4]
+					var lit, walk []string
+					for k := 1; k <= n; k++ {
+						lit = append(lit, fmt.Sprint(k))
+						walk = append(walk, fmt.Sprintf("[%d:%d]", k-1, k))
+					}
+					inOrder := strings.Join(walk, "")
+					var src, want string
+					data := map[string]any{}
+					switch i % 4 {
+					case 0: // a template variable, used before the loop
+						src, want = "{{ xs = ["+strings.Join(lit, ", ")+"] }}{{ p = xs."+fn+" }}<@each(v in xs)[{{ loop.index }}:{{ v }}]@end>", "<"+inOrder+">"
+					case 1: // a data slice, used before the loop (several times)
+						ints := make([]int, n)
+						for k := range ints {
+							ints[k] = k + 1
+						}
+						data["xs"] = ints
+						src, want = "{{ p = xs."+fn+" }}{{ q = xs."+fn+" }}{{ r = xs."+fn+" }}<@each(v in xs)[{{ loop.index }}:{{ v }}]@end>", "<"+inOrder+">"
+					case 2: // used inside the body, in every pass
+						src, want = "{{ xs = ["+strings.Join(lit, ", ")+"] }}<@each(v in xs){{ p = xs."+fn+" }}[{{ loop.index }}:{{ v }}]@end>", "<"+inOrder+">"
+					default: // used in every pass of an outer loop around the loop
+						src, want = "{{ xs = ["+strings.Join(lit, ", ")+"] }}<@each(o in [1, 2, 3]){{ p = xs."+fn+" }}@each(v in xs)[{{ loop.index }}:{{ v }}]@end;@end>", "<"+inOrder+";"+inOrder+";"+inOrder+";>"
+					}
+					c.Input(map[string]any{"source": src})
+					got := evalString(c, src, data)
+					c.Nontrivial(src)
+					if !got.Panicked && (got.Err != nil || got.Out != want) {
+						c.Violation("source-used-by-built-in:"+fn, fmt.Sprintf("the render gave %s, want %q", got.Describe(), want), map[string]any{"source": src})
 					}
 				}})
 			// (2) every position of every control directive in a body of up to 4 items
